@@ -1,84 +1,134 @@
 """C14: absolute references across probing.
 usage: python -m harness.drivers.ref_driver CASES.json OUT.json
-case: {"id", "place": name, "ops": [["act", pid, "name"|"ref"], ["deact", pid], ["call", v], ["resolve"]]}
+case: {"id", "place": name, "ops": [["act", pid, "name"|"ref"], ["deact", pid], ["call", v], ["resolve"],
+                                     ["nact", pid, key], ["ndeact", pid]]}
+Every case runs on a fresh copy of harness/worlds/refworld.py (own file, own module name): what codefind's registry and
+ptera's transform cache remember of earlier cases would otherwise leak into the history under test.
 """
+import importlib.util
 import json
+import os
+import shutil
 import sys
+import tempfile
 
-from harness.worlds import refworld as RW
+from harness.worlds import refworld as RW0
 from ptera import refstring
 from ptera.probe import Probe
 from ptera.selector import select
 from ptera.overlay import HandlerCollection
 
+# place -> (key, by-name text, caller, offset)
 PLACES = {
-    "top": (RW.top, "top", lambda v: RW.top(v), 1),
-    "meth": (RW.Outer.meth, "Outer.meth", lambda v: RW.Outer().meth(v), 2),
-    "inner_meth": (RW.Outer.Inner.meth, "Outer.Inner.meth", lambda v: RW.Outer.Inner().meth(v), 3),
-    "made": (RW.made, "made", lambda v: RW.made(v), 4),
-    "deco": (RW.deco.__wrapped__, "deco", lambda v: RW.deco(v), 5),
+    "top": ("top", "top", lambda M, v: M.top(v), 1),
+    "meth": ("Outer.meth", "Outer.meth", lambda M, v: M.Outer().meth(v), 2),
+    "inner_meth": ("Outer.Inner.meth", "Outer.Inner.meth", lambda M, v: M.Outer.Inner().meth(v), 3),
+    "made": ("make.inner", "made", lambda M, v: M.made(v), 4),
+    "deco": ("deco", "deco", lambda M, v: M.deco(v), 5),
     # waypoints: the probed path only passes through the function (no capture in it): '<fn> > top > v'
-    "way": (RW.way, "way", lambda v: RW.way(v), 1),
-    "lid_open": (RW.Box.Lid.open, "Box.Lid.open", lambda v: RW.Box.Lid().open(v), 1),
+    "way": ("way", "way", lambda M, v: M.way(v), 1),
+    "lid_open": ("Box.Lid.open", "Box.Lid.open", lambda M, v: M.Box.Lid().open(v), 1),
 }
-WAYPOINTS = {"way", "lid_open"}
-BASE = set(vars(RW))
-ENV = {"top": RW.top, "Outer": RW.Outer, "made": RW.made, "deco": RW.deco, "way": RW.way, "Box": RW.Box}
+WAYPOINTS = {"way", "Box.Lid.open"}
+BYNAME = {"top": "top", "meth": "meth", "Outer.meth": "Outer.meth", "Outer.Inner.meth": "Outer.Inner.meth", "make": "make",
+          "make.inner": "made", "inner": "inner", "deco": "deco", "way": "way", "Box.Lid.open": "Box.Lid.open"}
 
 
-def run_case(c):
-    fn, byname, caller, off = PLACES[c["place"]]
-    ref_target = RW.deco if c["place"] == "deco" else fn
-    try:
-        ref = refstring(ref_target)
-        ref_err = ""
-    except Exception as ex:
-        ref, ref_err = "", type(ex).__name__
+RUN_NO = [0]
+
+
+def functions(M):
+    return {"top": M.top, "meth": M.meth, "Outer.meth": M.Outer.meth, "Outer.Inner.meth": M.Outer.Inner.meth, "make": M.make,
+            "make.inner": M.made, "inner": M.inner, "deco": M.deco.__wrapped__, "way": M.way, "Box.Lid.open": M.Box.Lid.open}
+
+
+def tail(key):
+    return " > top > v" if key in WAYPOINTS else "() as r" if key == "make" else " > v"
+
+
+def run_case(c, work):
+    name = f"refw_{os.getpid()}_{c['id']}"
+    path = os.path.join(work, name + ".py")
+    # code objects compare by value (not by file name): shift the copy by a distinct number of lines so that codefind's
+    # code-keyed caches cannot confuse the functions of two copies
+    RUN_NO[0] += 1
+    with open(path, "w") as fh:
+        fh.write("\n" * RUN_NO[0] + open(RW0.__file__).read())
+    spec = importlib.util.spec_from_file_location(name, path)
+    M = importlib.util.module_from_spec(spec)
+    sys.modules[name] = M
+    spec.loader.exec_module(M)
+    base = set(vars(M))
+    FN = functions(M)
+    env = {"top": M.top, "Outer": M.Outer, "made": M.made, "deco": M.deco, "way": M.way, "Box": M.Box, "meth": M.meth,
+           "inner": M.inner, "make": M.make}
+    key, byname, caller, off = PLACES[c["place"]]
+    fn = FN[key]
+    refs, ref_err = {}, ""
+    for k, f in FN.items():
+        try:
+            refs[k] = refstring(M.deco if k == "deco" else f)
+        except Exception as ex:
+            refs[k] = ""
+            if k == key:
+                ref_err = type(ex).__name__
+    ref = refs[key]
+    back = {id(f): k for k, f in FN.items()}
     probes, recv = {}, {}
     steps = []
     for op in c["ops"]:
-        outcome, same = "ok", True
+        outcome, same, allres = "ok", True, {}
         try:
             if op[0] == "act":
-                text = (byname if op[2] == "name" else ref) + (" > top > v" if c["place"] in WAYPOINTS else " > v")
-                p = Probe(text, env=ENV)
+                text = (byname if op[2] == "name" else ref) + tail(key)
+                p = Probe(text, env=env)
                 recv[op[1]] = []
                 p.subscribe(lambda d, k=op[1]: recv[k].append(d["v"]))
                 probes[op[1]] = p
                 p.__enter__()
-            elif op[0] == "deact":
+            elif op[0] == "nact":
+                p = Probe(BYNAME[op[2]] + tail(op[2]), env=env)
+                p.subscribe(lambda d: None)
+                probes[op[1]] = p
+                p.__enter__()
+            elif op[0] in ("deact", "ndeact"):
                 probes[op[1]].__exit__(None, None, None)
             elif op[0] == "call":
-                r = caller(op[1])
+                r = caller(M, op[1])
                 same = (r == op[1] + off)
             elif op[0] == "resolve":
                 got = select(ref + " > v").element.name
                 same = got is fn
+                # ... and every other function of the module still answers to its own reference
+                for k, rf in refs.items():
+                    try:
+                        g = select(rf + " > v").element.name
+                        allres[k] = back.get(id(g), "?")
+                    except Exception:
+                        allres[k] = "ERR"
         except Exception as ex:
             outcome = type(ex).__name__
-        steps.append({"op": op, "outcome": outcome, "same": same, "recv": {k: list(v) for k, v in recv.items()}})
+        steps.append({"op": op, "outcome": outcome, "same": same, "all": allres, "recv": {k: list(v) for k, v in recv.items()}})
     for k, p in probes.items():
         try:
             p.__exit__(None, None, None)
         except Exception:
             pass
     HandlerCollection.current.set(None)
-    st = getattr(fn, "__ptera_stack__", None)
-    if st is not None:
-        st.instrument_count = 0
-        st.captures.clear()
-        st._apply(fn)
     # probing must not leave anything behind in the function's module (ptera's own __ptera* helpers excepted)
-    stray = sorted(str(k) for k in vars(RW) if k not in BASE and not str(k).startswith(("__ptera", "_ptera__")))
-    for k in list(vars(RW)):
-        if k not in BASE and not str(k).startswith(("__ptera", "_ptera__")):
-            del vars(RW)[k]
-    return {"id": c["id"], "place": c["place"], "ref": ref, "ref_err": ref_err, "off": off, "steps": steps, "stray": stray}
+    stray = sorted(str(k) for k in vars(M) if k not in base and not str(k).startswith(("__ptera", "_ptera__")))
+    sys.modules.pop(name, None)
+    return {"id": c["id"], "place": c["place"], "key": key, "ref": ref, "ref_err": ref_err, "off": off, "steps": steps, "stray": stray}
 
 
 def main():
     cases = json.load(open(sys.argv[1]))
-    out = [run_case(c) for c in cases]
+    work = tempfile.mkdtemp(prefix="refw-")
+    sys.path.insert(0, work)
+    try:
+        out = [run_case(c, work) for c in cases]
+    finally:
+        shutil.rmtree(work, ignore_errors=True)
     json.dump(out, open(sys.argv[2], "w"))
     print(len(out))
 
